@@ -1,7 +1,7 @@
 (** C16 - Notification hooks fire exactly once and in order around each link
     change.  Only statements; proofs are [exact <lemma>]. *)
 Require Import AT.Model.Base AT.Model.Heap AT.Model.Mutate AT.Spec.MutSpec.
-Require AT.Proofs.MutParent AT.Proofs.MutHistory AT.Proofs.MutDelRun.
+Require AT.Proofs.MutParent AT.Proofs.MutHistory AT.Proofs.MutDelRun AT.Proofs.MutSetRun.
 Import AT.Proofs.MutParent.
 
 (** a parent change that actually happens logs exactly
@@ -85,13 +85,22 @@ Proof.
 Qed.
 Print Assumptions C16_del_log.
 
-(** Not yet proved in Coq (kept visible): the wrapping of the per-child calls
-    by the four *_children hooks.  Decided on every explored call by
-    evaluating [expected_log] on the implementation's observed logs. *)
-Definition C16_children_log_full : Prop :=
-  forall typed asrt o h, Inv h -> valid_op (length h) o ->
-    must_refuse typed h o = None ->
-    log (snd (run_op typed asrt no_faults reentry_fuel o (start h))) = expected_log typed h o.
+(** `n.children = xs` (an accepted call): _pre_detach_children(former),
+    the former children's detach hooks in order, _post_detach_children(former),
+    _pre_attach_children(xs), the new children's move hooks in order (each
+    computed in the state reached so far), _post_attach_children(xs) - all
+    former children are detached before the first new one is attached *)
+Theorem C16_children_log : forall typed asrt fu n xs s,
+  let h := heap_of s in
+  Inv h -> n < length h -> NoDup xs ->
+  (forall x, In x xs -> x < length h /\ x <> n /\ ~ In x (ancestors_of h n)) ->
+  log (snd (set_children typed asrt no_faults (S fu) n (CList (map VNode xs)) s))
+  = log s ++ fst (log_set_children h n xs).
+Proof.
+  intros typed asrt fu n xs s h I Hn ND B.
+  rewrite (MutSetRun.set_children_run typed asrt fu n xs s I Hn ND B). reflexivity.
+Qed.
+Print Assumptions C16_children_log.
 
 Example C16_example :
   let h := attach_links (init 3) 1 0 in
